@@ -106,8 +106,13 @@ func (action *ModifyRequestAction) ReqPrioritize(
 		mergedHeaders := utils.MergeHeaders(
 			action.HeadersToSet, other.(*ModifyHeadersAction).HeadersToSet)
 
-		action.HeadersToSet = mergedHeaders
-		prioritizedAction = action
+		prioritizedAction = &ModifyRequestAction{
+			HeadersToSet: mergedHeaders,
+			Host:         action.Host,
+			Path:         action.Path,
+			QueryParams:  action.QueryParams,
+			Body:         action.Body,
+		}
 
 	case sharedActions.ReqModifiedRequest:
 		mergedHeaders := utils.MergeHeaders(
